@@ -878,6 +878,53 @@ def hex_nibble_tables(b):
     return out
 
 
+def variant_name(pat):
+    """`Enum::Variant`, `Enum::Variant(..)`, `Enum::Variant { .. }`, `&Enum::Variant(_)` -> 'Variant' (None for anything else)"""
+    m = re.fullmatch(r"&?\s*(?:ref\s+)?(?:\w+::)*(\w+)\s*(?:\(.*\)|\{.*\})?", pat.strip(), flags=re.S)
+    return m.group(1) if m and pat.strip() != "_" else None
+
+
+def variant_pred(expr, variants):
+    """{variant: bool} for a predicate over an enum value written as `match v { A | B(_) => true, …, _ => false }` or
+    `[!]matches!(v, A | B(_))` (the two spellings of the same test); `variants` lists all variants of the enum.
+    Also returns the scrutinee text: (map, scrutinee)."""
+    e = strip_parens(strip_block(expr))
+    neg = False
+    while e.startswith("!"):
+        neg, e = not neg, strip_parens(e[1:])
+    out = {}
+    m = re.match(r"matches!\s*\(", e)
+    if m and close_of(e, m.end() - 1) == len(e) - 1:
+        args = split_top(e[m.end():-1], ",")
+        if len(args) != 2:
+            raise ValueError("matches! with a guard")
+        names = [variant_name(p) for p in split_top(args[1], "|")]
+        if None in names:
+            raise ValueError("pattern in %r" % e[:50])
+        for v in variants:
+            out[v] = (v in names) != neg
+        return out, args[0].strip()
+    m = re.match(r"match\s+([^{]+?)\s*\{", e)
+    if m and close_of(e, m.end() - 1) == len(e) - 1:
+        for arm in _arms_of_block(e[m.end():-1]):
+            if arm.guard is not None or arm.expr not in ("true", "false"):
+                raise ValueError("arm %r" % arm)
+            val = (arm.expr == "true") != neg
+            for p in arm.pats:
+                if p == "_" or re.fullmatch(r"[a-z_]\w*", p):
+                    for v in variants:
+                        out.setdefault(v, val)
+                    return out, m.group(1)
+                n = variant_name(p)
+                if n is None or n not in variants:
+                    raise ValueError("pattern %r" % p)
+                out.setdefault(n, val)
+        if set(out) != set(variants):
+            raise ValueError("match is not exhaustive")
+        return out, m.group(1)
+    raise ValueError("variant predicate not understood: %r" % e[:60])
+
+
 def norm_ws(s):
     return re.sub(r"\s+", "", s)
 
